@@ -34,6 +34,16 @@ fn run_one_witness(id: &str) -> Option<bool> {
 
 fn main() {
     let args: Vec<String> = std::env::args().collect();
+    if args.len() == 3 && args[1] == "--const" {
+        // the value a constant has in the REAL build (asked by E3 queries that need a number the source spells in some way)
+        match iroh_docs::verif_incrate::witness::constant(&args[2]) {
+            Some(v) => {
+                println!("{v}");
+                std::process::exit(0)
+            }
+            None => std::process::exit(2),
+        }
+    }
     if args.len() == 3 && args[1] == "--witness" {
         match run_witness(&args[2]) {
             None => {
